@@ -449,14 +449,15 @@ func (n *Net) failAllFrom(id string, inc int) {
 // After every scheduler step: settle, number new RPCs, emit state changes, handle gate crashes.
 func (c *Cluster) Settle(cause string) {
 	synctest.Wait()
-	c.Net.canonicalise()
+	// a crash point inside a store write: everything the zombie did after it (including RPCs it
+	// sent) never happened, so it is discarded before the new RPCs of this step are numbered
 	for _, n := range c.Nodes {
 		if n.Up && n.inc.crashedAtGate {
 			n.inc.crashedAtGate = false
 			c.finishCrash(n, "crash")
-			c.Net.canonicalise()
 		}
 	}
+	c.Net.canonicalise()
 	for _, n := range c.Nodes {
 		if n.Up {
 			c.emitState(cause, n, false)
@@ -489,6 +490,9 @@ func (c *Cluster) emitState(cause string, n *Node, force bool) {
 	}
 	n.lastSt = fp
 	kv := M{"cause": cause, "st": st}
+	if n.inc != nil && n.inc.Parked() {
+		kv["busy"] = true // the main goroutine is parked inside a store write: a mid-handler state
+	}
 	if len(hs) > 0 {
 		kv["h"] = hs
 		// "clean": this step was exactly one request handed to an idle server, so the
